@@ -166,10 +166,15 @@ func (s *histogram[N]) delta(dest *metricdata.Aggregation) int {
 		hDPts[i].Bounds = bounds
 		hDPts[i].BucketCounts = val.counts
 
+		// The data points may be reused memory of another stream's previous
+		// collection: reset what this stream does not collect.
+		hDPts[i].Sum = 0
 		if !s.noSum {
 			hDPts[i].Sum = val.total
 		}
 
+		hDPts[i].Min = metricdata.Extrema[N]{}
+		hDPts[i].Max = metricdata.Extrema[N]{}
 		if !s.noMinMax {
 			hDPts[i].Min = metricdata.NewExtrema(val.min)
 			hDPts[i].Max = metricdata.NewExtrema(val.max)
@@ -222,10 +227,15 @@ func (s *histogram[N]) cumulative(dest *metricdata.Aggregation) int {
 		// memory allocation footprint. Alternatives should be explored.
 		hDPts[i].BucketCounts = slices.Clone(val.counts)
 
+		// The data points may be reused memory of another stream's previous
+		// collection: reset what this stream does not collect.
+		hDPts[i].Sum = 0
 		if !s.noSum {
 			hDPts[i].Sum = val.total
 		}
 
+		hDPts[i].Min = metricdata.Extrema[N]{}
+		hDPts[i].Max = metricdata.Extrema[N]{}
 		if !s.noMinMax {
 			hDPts[i].Min = metricdata.NewExtrema(val.min)
 			hDPts[i].Max = metricdata.NewExtrema(val.max)
